@@ -15,13 +15,13 @@ pub const SIG_GLUE: &str = "expansion-glued-to-adjacent-token-without-separator"
 /// the source attaches a directive / macro usage directly to a neighbouring token (no white space),
 /// so that what it expands to can fuse with that neighbour in the output
 pub fn directive_attached(s: &str) -> bool {
-    let Ok(lx) = lexref::lex(s) else { return false };
+    let Ok(lx) = lexref::lex_opts(s, true) else { return false };
     lx.windows(2).any(|w| !lexref::is_trivia(w[0].k) && !lexref::is_trivia(w[1].k) && (w[1].k == K::Bt || w[0].k == K::Bt))
 }
 
 /// a string literal / escaped identifier followed (trivia aside) by a compiler directive
 pub fn literal_then_directive(s: &str) -> bool {
-    let Ok(lx) = lexref::lex(s) else { return false };
+    let Ok(lx) = lexref::lex_opts(s, true) else { return false };
     let sig: Vec<&lexref::Lx> = lx.iter().filter(|l| !lexref::is_trivia(l.k)).collect();
     sig.windows(2).any(|w| matches!(w[0].k, K::Str | K::EscId) && w[1].k == K::Bt)
 }
